@@ -96,7 +96,17 @@ func (r *ring) currentHosts() map[string]*HostInfo {
 
 func (r *ring) addOrUpdate(host *HostInfo) *HostInfo {
 	if existingHost, ok := r.addHostIfMissing(host); ok {
+		r.mu.Lock()
+		oldAddr := existingHost.nodeToNodeAddress().String()
 		existingHost.update(host)
+		newAddr := existingHost.nodeToNodeAddress().String()
+		// update fills in a missing broadcast address or peer, which can change the address
+		// the host is indexed under: keep hostIPToUUID in step
+		if hostID := existingHost.HostID(); newAddr != oldAddr && r.hosts[hostID] == existingHost {
+			r.unindexAddrLocked(oldAddr, hostID)
+			r.hostIPToUUID[newAddr] = hostID
+		}
+		r.mu.Unlock()
 		host = existingHost
 	}
 	return host
